@@ -136,7 +136,13 @@ func (spc *realStatefulPodControl) UpdateStatefulPod(set *apps.StatefulSet, pod 
 }
 
 func (spc *realStatefulPodControl) DeleteStatefulPod(set *apps.StatefulSet, pod *v1.Pod) error {
-	err := spc.client.CoreV1().Pods(set.Namespace).Delete(context.TODO(), pod.Name, metav1.DeleteOptions{})
+	// delete the Pod that was observed, not whatever carries its name by now: with a stale cache the name may
+	// already belong to the replacement created by an earlier sync
+	deleteOptions := metav1.DeleteOptions{}
+	if len(pod.UID) > 0 {
+		deleteOptions.Preconditions = metav1.NewUIDPreconditions(string(pod.UID))
+	}
+	err := spc.client.CoreV1().Pods(set.Namespace).Delete(context.TODO(), pod.Name, deleteOptions)
 	spc.recordPodEvent("delete", set, pod, err)
 	return err
 }
